@@ -27,6 +27,7 @@ import (
 	vw "github.com/ava-labs/hypersdk/internal/validitywindow"
 	"github.com/ava-labs/hypersdk/internal/vshim/evid"
 	"github.com/ava-labs/hypersdk/internal/vshim/seqx"
+	"github.com/ava-labs/hypersdk/internal/vshim/vsched"
 )
 
 const (
@@ -405,8 +406,124 @@ func exec(h []int) seqx.Result {
 	return seqx.Result{Key: strings.Join(ks, ";") + "|" + strings.Join(order, ",") + "|" + fmt.Sprint(len(blocks)) + "|" + w.VerifDump(), Enabled: en, Outcome: outcome}
 }
 
+// ---------------------------------------------------------------- part B: schedules
+//
+// The window's Accept runs on the asynchronous accepted-queue thread while the engine thread
+// verifies and builds on top of the same blocks. Each scenario: thread A accepts the listed
+// blocks in order, the main thread concurrently verifies a child that repeats a transaction
+// of an ancestor and asks the builder filter about it; every interleaving (instrumented
+// validitywindow + emap under the controlled scheduler) must reject / mark the repeat.
+type schedScenario struct {
+	name   string
+	chain  [][]int // tx indices of b1, b2, ... (each child of the previous, 1 s apart)
+	accept int     // thread A accepts b1..b<accept>
+	child  []int   // the crafted child of the tip
+	dt     int64
+}
+
+var schedScenarios = []schedScenario{
+	{"accept(b1[T1]) || verify(b2[T1])", [][]int{{1}}, 1, []int{1}, 1000},
+	{"accept(b1[T1]) || verify(b2[T2,T1])", [][]int{{1}}, 1, []int{2, 1}, 1000},
+	{"accept(b1[T1]);accept(b2[T2]) || verify(b3[T1])", [][]int{{1}, {2}}, 2, []int{1}, 1000},
+	{"accept(b1[T1]);accept(b2[T2]) || verify(b3[T2])", [][]int{{1}, {2}}, 2, []int{2}, 0},
+	{"accept(b1[T0]);accept(b2[]) || verify(b3[T0]) at the expiry", [][]int{{0}, {}}, 2, []int{0}, 0},
+	{"accept(b1[T1]) of 2 processing || verify(b3[T1])", [][]int{{1}, {2}}, 1, []int{1}, 1000},
+}
+
+type schedObs struct {
+	verifyErr error
+	dup       bool
+	isRepErr  error
+}
+
+func schedBody(sc schedScenario, o **schedObs) func() {
+	return func() {
+		ob := &schedObs{}
+		*o = ob
+		ctx := context.Background()
+		genesis := &hblock{id: ids.ID{0xff}, ts: 0, height: 0, num: 0, par: -1, status: stProcessed}
+		idx := &index{m: map[ids.ID]*hblock{genesis.id: genesis}}
+		w, err := vw.NewTimeValidityWindow[*htx](ctx, logging.NoLog{}, trace.Noop, idx, genesis, getWindow)
+		if err != nil {
+			panic(err)
+		}
+		tip := genesis
+		var blocks []*hblock
+		for i, l := range sc.chain {
+			var txs []*htx
+			for _, t := range l {
+				txs = append(txs, txUniverse[t])
+			}
+			b := newBlock(tip, tip.ts+1000, txs, i+1)
+			idx.m[b.id] = b
+			blocks = append(blocks, b)
+			tip = b
+		}
+		vsched.Go(func() {
+			for i := 0; i < sc.accept; i++ {
+				w.Accept(blocks[i])
+			}
+		})
+		var txs []*htx
+		for _, t := range sc.child {
+			txs = append(txs, txUniverse[t])
+		}
+		child := newBlock(tip, tip.ts+sc.dt, txs, len(blocks)+1)
+		idx.m[child.id] = child
+		ob.verifyErr = w.VerifyExpiryReplayProtection(ctx, child)
+		dup, err := w.IsRepeat(ctx, tip, child.ts, txs)
+		ob.isRepErr = err
+		ob.dup = dup.Len() > 0
+	}
+}
+
+func runSchedules(r *evid.Run) {
+	execs, conflicting := 0, 0
+	for si, sc := range schedScenarios {
+		var o *schedObs
+		sc := sc
+		ex := &vsched.Explorer{Body: schedBody(sc, &o), MaxPreemptions: -1, MaxDeviations: -1, Stop: r.Expired,
+			Check: func(out *vsched.Outcome) (string, string) {
+				if out.Deadlock {
+					return "deadlock", fmt.Sprintf("%v", out.Blocked)
+				}
+				if o.verifyErr == nil {
+					return "repeat-admitted-under-concurrent-accept", "a child repeating a transaction of an ancestor passed verification while the ancestor was being accepted concurrently"
+				}
+				if o.isRepErr != nil || !o.dup {
+					return "builder-misses-repeat-under-concurrent-accept", fmt.Sprintf("IsRepeat did not mark a transaction of an ancestor while the ancestor was being accepted concurrently (err %v)", o.isRepErr)
+				}
+				return "", ""
+			},
+			OnViolation: func(key, what string, choices []int, out *vsched.Outcome) {
+				r.Violation("C09:"+key, what+" ["+sc.name+"]", map[string]any{"scenario": si, "name": sc.name, "choices": choices})
+			}, StopAtFirst: true}
+		if !ex.Run() {
+			evid.Infra("schedule exploration diverged: %s", ex.Diverged)
+		}
+		if !ex.Exhaustive && ex.Violations == 0 {
+			r.Cap("deadline reached inside a schedule scenario")
+		}
+		execs += ex.Executions
+		conflicting += ex.Conflicting
+	}
+	r.Cov["schedule_scenarios"] = len(schedScenarios)
+	r.Cov["schedule_executions"] = execs
+	r.Cov["schedule_executions_with_shared_objects"] = conflicting
+}
+
 func main() {
 	r := evid.Start("C09", "model_checking")
+	if evid.RacePass() {
+		for _, sc := range schedScenarios {
+			var o *schedObs
+			b := schedBody(sc, &o)
+			for i := 0; i < evid.Pick(r, 300, 3000); i++ {
+				b()
+			}
+		}
+		return
+	}
 	if p := evid.ReplayPayload(); p != nil {
 		var h []int
 		for _, x := range p["ops"].([]any) {
@@ -427,6 +544,7 @@ func main() {
 		OnViolation: func(h []int, v *seqx.Violation) {
 			r.Violation(v.Key, v.What, map[string]any{"history": hist(h), "ops": h})
 		}}
+	runSchedules(r)
 	st := s.Run()
 	if !st.Complete {
 		r.Cap("deadline reached before the depth bound")
